@@ -254,3 +254,11 @@ Proof.
     unfold col_ok, u32, maxItemSize, pow2_le16; simpl. repeat split; try lia. }
   constructor; [apply H; lia|]. constructor; [apply H; lia|]. constructor; [apply H; lia|]. constructor.
 Qed.
+
+(* OBSERVATION (not a C18 violation, see NOTES.md): on a freshly constructed list with keepRowNumber the generated IsMutable accepts
+   offset 0 (its assertion is offset < mTotalSize = 8) although mMutableOffsets has no byte yet; the model's array is all zero there,
+   the real one is empty (a null pointer read) *)
+Example obs_ismutable_on_fresh_row_number_list :
+  totalSize (init true) = 8 /\ mutCount (init true) = 0 /\
+  Gen_Mut.IsMutable Gen_Bits.GetBit (totalSize (init true)) (mutBytes (init true)) 0 = Ok false.
+Proof. vm_compute. repeat split. Qed.
